@@ -214,6 +214,19 @@ CLAIMS["C19"] = dict(
     technique="contract-based deductive verification: exceptional postconditions ordered against effects on the real constructor / validate / solve; syntactic effect check",
     note=TRUST + " Partially unbalanced callables can pass the sampled validation (limitation of the code, stated).")
 
+CLAIMS["C18"] = dict(
+    category="other",
+    text="Geometry itself (areas, point-set semantics of union/intersection/difference, point mapping) is computed by shapely/GEOS and matplotlib and is NOT "
+         "decided by contracts: bounded native run only. Decided on the real Polygon/Device code under assumed library contracts (identity-tracking models "
+         "of shapely objects): the points setter is the only writer of the stored vertices and on every non-raising path stores close_curve(orient(.)), also "
+         "after rotate/translate/scale with SYMBOLIC parameters (branches on parameters fork); +,-,* dispatch to union/difference/intersection of the two "
+         "operands' geometries, n-ary forms fold left and keep name and mesh flag; non-in-place transforms, copy and zero-operand set operations return a "
+         "new object and leave the receiver untouched, in-place ones return the receiver; Device.contains_points is film AND NOT any hole for 0..3 holes "
+         "over symbolic boolean arrays.",
+    design_ref="DESIGN.md section 4 C18",
+    technique="contract-based deductive verification of the wrapper logic over models of the geometry library (heap identity / provenance obligations); geometry only bounded",
+    note=TRUST + " GEOS and matplotlib.path are assumed (A7); level claimed is 'other'.")
+
 NA = {}
 
 checks = []
